@@ -133,6 +133,49 @@ func c07Round(w *ndWriter, seed int64, C, B, P, Cn, n int, loaderUs int) int {
 	return n2
 }
 
+// fresh queue: its FIRST calls come from K goroutines released together (invocations are logged before the barrier: the calls
+// overlap each other completely), then one goroutine polls until everything accepted has been retrieved
+func c07Fresh(w *ndWriter, C, B, K int, loaderUs int) int {
+	rec := &recorder{}
+	q := fpgo.NewBufferedChannelQueue[int](C, B, 2).SetLoadFromPoolDuration(time.Duration(loaderUs) * time.Microsecond)
+	rec.ev(E{"ev": "reset", "thr": "-", "op": "-", "v": 0, "r": "-", "c": C, "b": B})
+	var ready, start int32
+	errs := make([]error, K)
+	var wg sync.WaitGroup
+	for p := 0; p < K; p++ {
+		rec.ev(E{"ev": "inv", "thr": fmt.Sprintf("p%d", p+1), "op": "offer", "v": (p+1)*1000 + 1, "r": "-"})
+		wg.Add(1)
+		go func(p int) {
+			defer wg.Done()
+			atomic.AddInt32(&ready, 1)
+			for atomic.LoadInt32(&start) == 0 {
+			}
+			errs[p] = q.Offer((p+1)*1000 + 1)
+		}(p)
+	}
+	for atomic.LoadInt32(&ready) < int32(K) {
+		runtime.Gosched()
+	}
+	atomic.StoreInt32(&start, 1)
+	wg.Wait()
+	for p := 0; p < K; p++ {
+		rec.ev(E{"ev": "res", "thr": fmt.Sprintf("p%d", p+1), "op": "offer", "v": (p+1)*1000 + 1, "r": qerr(errs[p])})
+	}
+	deadline := time.Now().Add(3 * time.Second)
+	for q.Count() > 0 && time.Now().Before(deadline) {
+		rec.ev(E{"ev": "inv", "thr": "d", "op": "poll", "v": 0, "r": "-"})
+		v, err := q.Poll()
+		rec.ev(E{"ev": "res", "thr": "d", "op": "poll", "v": v, "r": qerr(err)})
+		if err != nil {
+			time.Sleep(20 * time.Microsecond)
+		}
+	}
+	rec.ev(E{"ev": "quiesce", "thr": "-", "op": "-", "v": q.Count(), "r": "-"})
+	n := rec.flush(w)
+	q.Close()
+	return n
+}
+
 // ---- hook-level recording for Trace_BQueueHook.tla: every hook point of the queue under test is logged with the role of
 // the goroutine and, inside q.lock, the channel length and the pool count; the harness adds inv/res lines.
 func c07HookRound(w *ndWriter, seed int64, C, B, P, Cn, n int, loaderUs int, first bool) int {
@@ -412,6 +455,8 @@ func c07Main(args []string) error {
 			if r%12 == 5 {
 				m := r / 12
 				events += c07BlockedTakers(w, 1+m%2, 3+m%4, []int{20000, 1000, 5000}[m%3], m%4 != 3)
+			} else if r%9 == 4 {
+				events += c07Fresh(w, c[0], c[1]+5, 2+r%6, []int{0, 1, 1000}[r%3])
 			} else if r%9 == 8 {
 				events += c07ChanRound(w, seed*100003+int64(r), 1+r%3, P, Cn, 4)
 			} else {
